@@ -10,6 +10,7 @@
 (*   Sum  Scan(0,+)           Dedup Deduplicate        BufN Buffer(N)                 *)
 (*   BSumN  Batch(N, never);Map(chunk -> 1000*len+sum) BFlatN Batch(N, never);Flatten  *)
 (*   OParN OrderedParallelMap(N, x+1)                  ParN ParallelMap(N, x+1)       *)
+(*   FMC  FlatMapConcat(x -> Of(x, x+10))              FMM2 FlatMapMerge(2, x -> Of(x, x+10)) *)
 (* A *pipeline* is a sequence of stages; a *case* is a junction kind, its source      *)
 (* pipelines with their inputs, the stages after a fan-in (post) and the per-branch   *)
 (* stages of a fan-out.  `Verdict` judges what the sinks of a real execution of the   *)
@@ -58,13 +59,15 @@ ErrOf(s) == CASE s = "Err2" -> 2 [] s = "Err3" -> 3 [] s = "Err4" -> 4 [] OTHER 
 BatchN(s) == CASE s \in {"BSum2", "BFlat2"} -> 2 [] s \in {"BSum3", "BFlat3"} -> 3 [] OTHER -> 0
 IsBSum(s) == s \in {"BSum2", "BSum3"}
 IsPar(s) == s \in {"Par2", "Par3"}
+Unordered(s) == IsPar(s) \/ s = "FMM2"           \* the stage emits in completion order
 IsOPar(s) == s \in {"OPar1", "OPar2", "OPar3"}
 IsBuf(s) == s \in {"Buf1", "Buf2"}
 \* stages whose output is the concatenation of per-element outputs (no state, no position)
-Elementwise(s) == s \in {"Inc", "Dbl", "Even", "Odd", "Dup", "Rep", "Split"} \/ IsPar(s) \/ IsOPar(s) \/ IsBuf(s)
+Elementwise(s) == s \in {"Inc", "Dbl", "Even", "Odd", "Dup", "Rep", "Split", "FMC", "FMM2"} \/ IsPar(s) \/ IsOPar(s) \/ IsBuf(s)
 \* stages that may follow an unordered stage without making the expected bag ambiguous
 OrderInsensitive(s) == Elementwise(s) \/ s \in {"BFlat2", "BFlat3"}
-HasPar(p) == \E i \in 1..Len(p) : IsPar(p[i])
+HasPar(p) == \E i \in 1..Len(p) : Unordered(p[i])
+HasBatch(p) == \E i \in 1..Len(p) : BatchN(p[i]) # 0
 IgnoresDemand(p) == \E i \in 1..Len(p) : IsPar(p[i]) \/ IsOPar(p[i])
 
 Each(s, x) ==
@@ -74,7 +77,7 @@ Each(s, x) ==
     [] s = "Odd" -> IF x % 2 = 1 THEN <<x>> ELSE <<>>
     [] s = "Dup" -> <<x, x>>
     [] s = "Rep" -> [i \in 1..(x % 3) |-> x]
-    [] s = "Split" -> <<x, x + 10>>
+    [] s \in {"Split", "FMC", "FMM2"} -> <<x, x + 10>>
     [] IsPar(s) \/ IsOPar(s) -> <<x + 1>>
     [] OTHER -> <<x>>                       \* Buffer
 
@@ -129,11 +132,17 @@ Outs(p, xs, errs, D) ==
 \* the contract for deterministic pipelines (used by the algebraic sanity checks)
 Run(p, xs) == CHOOSE e \in Outs(p, xs, {}, {}) : TRUE
 
-\* what one sink observed (out, err) against one expectation e; un: order is not determined
+\* what one sink observed (out, err) against one expectation e; un: order is not determined;
+\* lossy: a batch stage works on an unordered stream under defect BatchNoDemand: the window it loses
+\* at completion is not a suffix of the canonical order, any sub-bag can remain
 SinkOK(e, un, out, err) ==
   IF e.errs = {}
   THEN err = 0 /\ (IF un THEN SameBag(out, e.els) ELSE out = e.els)
   ELSE err \in e.errs /\ (IF un THEN SubBag(out, e.els) ELSE IsPrefix(out, e.els))
+SinkOKD(e, un, out, err, p, D) ==
+  IF un /\ "BatchNoDemand" \in D /\ HasBatch(p)
+  THEN (IF e.errs = {} THEN err = 0 ELSE err \in e.errs) /\ SubBag(out, e.els)
+  ELSE SinkOK(e, un, out, err)
 
 \* ------------------------------------------------------------------ cases
 NSrc(c) == Len(c.srcs)
@@ -155,7 +164,7 @@ SrcChoices(c, D) ==
 
 JudgeLinear(c, r, D) ==
   LET p == c.srcs[1].p \o c.post \o c.branches[1]
-  IN \E e \in Outs(p, c.srcs[1].inp, {}, D) : SinkOK(e, HasPar(p), r.outs[1], r.errs[1])
+  IN \E e \in Outs(p, c.srcs[1].inp, {}, D) : SinkOKD(e, HasPar(p), r.outs[1], r.errs[1], p, D)
 
 JudgeFanIn(c, r, D) ==
   LET q == c.post \o c.branches[1]
@@ -165,8 +174,8 @@ JudgeFanIn(c, r, D) ==
               \* q is elementwise (generator constraint): it commutes with the interleaving
               LET ms == [i \in 1..Len(ls) |-> Run(q, ls[i]).els]
               IN r.errs[1] = 0 /\ (IF HasPar(q) THEN SameBag(out, Flat(ms)) ELSE Interleaving(out, ms))
-         [] c.j = "Concat" -> \E e \in Outs(q, Flat(ls), {}, D) : SinkOK(e, HasPar(q), out, r.errs[1])
-         [] OTHER -> \E e \in Outs(q, ZipOf(ls), {}, D) : SinkOK(e, HasPar(q), out, r.errs[1])   \* Zip, Combine
+         [] c.j = "Concat" -> \E e \in Outs(q, Flat(ls), {}, D) : SinkOKD(e, HasPar(q), out, r.errs[1], q, D)
+         [] OTHER -> \E e \in Outs(q, ZipOf(ls), {}, D) : SinkOKD(e, HasPar(q), out, r.errs[1], q, D)   \* Zip, Combine
 
 SumLen(outs) == SumSeq([b \in 1..Len(outs) |-> Len(outs[b])])
 
@@ -177,10 +186,10 @@ JudgeFanOut(c, r, D) ==
   IN \E L \in Outs(sp, c.srcs[1].inp, {}, D) :
        CASE c.j = "Broadcast" ->
               \A b \in 1..n : \E e \in Outs(c.branches[b], L.els, L.errs, D) :
-                 SinkOK(e, un0 \/ HasPar(c.branches[b]), r.outs[b], r.errs[b])
+                 SinkOKD(e, un0 \/ HasPar(c.branches[b]), r.outs[b], r.errs[b], sp \o c.branches[b], D)
          [] c.j = "Partition" ->
               \A b \in 1..n : \E e \in Outs(c.branches[b], SelectSeq(L.els, LAMBDA v : v % n = b - 1), L.errs, D) :
-                 SinkOK(e, un0 \/ HasPar(c.branches[b]), r.outs[b], r.errs[b])
+                 SinkOKD(e, un0 \/ HasPar(c.branches[b]), r.outs[b], r.errs[b], sp \o c.branches[b], D)
          [] OTHER ->   \* Balance: every element to exactly one branch, order kept inside a branch
               IF "BalanceDrop" \in D /\ IgnoresDemand(sp)
               THEN /\ \A b \in 1..n : (IF L.errs = {} THEN r.errs[b] = 0 ELSE r.errs[b] \in L.errs)
@@ -188,7 +197,8 @@ JudgeFanOut(c, r, D) ==
                    /\ SubBag(Flat(r.outs), L.els)
               ELSE IF L.errs = {}
               THEN /\ \A b \in 1..n : r.errs[b] = 0
-                   /\ IF un0 THEN SameBag(Flat(r.outs), L.els) ELSE Interleaving(L.els, r.outs)
+                   /\ IF un0 /\ "BatchNoDemand" \in D /\ HasBatch(sp) THEN SubBag(Flat(r.outs), L.els)
+                      ELSE IF un0 THEN SameBag(Flat(r.outs), L.els) ELSE Interleaving(L.els, r.outs)
               ELSE /\ \A b \in 1..n : r.errs[b] \in L.errs
                    /\ SumLen(r.outs) <= Len(L.els)
                    /\ IF un0 THEN SubBag(Flat(r.outs), L.els)
@@ -209,7 +219,7 @@ Verdict(c, r) ==
 
 \* ------------------------------------------------------------------ generator-side well-formedness
 \* after an unordered stage only order-insensitive, non-failing stages (keeps the expected bag unique)
-WellFormed(p) == \A i \in 1..Len(p) : IsPar(p[i]) => \A j \in (i + 1)..Len(p) : OrderInsensitive(p[j]) /\ ErrOf(p[j]) = 0
+WellFormed(p) == \A i \in 1..Len(p) : Unordered(p[i]) => \A j \in (i + 1)..Len(p) : OrderInsensitive(p[j]) /\ ErrOf(p[j]) = 0
 NoErr(p) == \A i \in 1..Len(p) : ErrOf(p[i]) = 0
 AllElementwise(p) == \A i \in 1..Len(p) : Elementwise(p[i])
 =============================================================================
